@@ -18,9 +18,9 @@ EXTENDS MarkovQ
 
 CONSTANTS Pairs   \* sequence of [null: instance, alt: [name, L, kind, pnames, reversible, stationary]]
 
-Coords(L, pn) == {c \in States(L) \X States(L) : Inst(c[1], c[2]) /\ Holds(pn, c[1], c[2])}
+Coords(L, pn) == {c \in States(L) \X States(L) : Inst(c[1], c[2]) /\ Holds(1, pn, c[1], c[2])}
 InstCells(L) == {c \in States(L) \X States(L) : Inst(c[1], c[2])}
-RefCells(L, pnames) == {c \in InstCells(L) : \A x \in 1..Len(pnames) : ~Holds(pnames[x], c[1], c[2])}
+RefCells(L, pnames) == {c \in InstCells(L) : \A x \in 1..Len(pnames) : ~Holds(1, pnames[x], c[1], c[2])}
 
 NullNames(p) == [x \in 1..Len(p.null.params) |-> p.null.params[x][1]]
 NullCoords(p, s) == IF s = "ref_cell" THEN RefCells(p.null.L, NullNames(p)) ELSE Coords(p.null.L, s)
